@@ -83,6 +83,10 @@ func h17() {
 				ln = 1 + verifChoice(l)
 			}
 			path := verifString(ln)
+			if verifParam("second") == 1 {
+				// all but the last two bytes fixed to those of the core path
+				path = "foo/foo." + verifString(2)
+			}
 			for k := range sg.files {
 				verifAssume(k != path) // map keys of one response are distinct by construction
 			}
@@ -91,6 +95,12 @@ func h17() {
 				allPaths = append(allPaths, nil)
 			}
 			allPaths[p] = append(allPaths[p], path)
+		}
+		if verifParam("second") == 1 {
+			// a further, harmless file whose name sorts after the core path
+			extra := "zzz/extra" + []string{"0", "1"}[p] + ".go"
+			sg.files[extra] = []byte("plugin")
+			allPaths[p] = append(allPaths[p], extra)
 		}
 		// two instances of one plugin carry the same name (-p "x --a" -p "x --b")
 		pname := []string{"p0", "p1"}[p]
@@ -109,6 +119,12 @@ func h17() {
 		Services:   make(map[string]*compile.ServiceSpec),
 	}
 	o := &Options{OutputDir: out, ThriftRoot: "/root", PackagePrefix: "p", Plugin: CodeGenerator{ServiceGenerator: msg}, NoEmbedIDL: true, NoVersionCheck: true}
+	switch verifParam("mode") {
+	case 1:
+		o.NoRecurse = true
+	case 2:
+		o.OutputFile = "single.go"
+	}
 	err := Generate(m, o)
 	verifObserveBool("err", err != nil)
 	verifObserveInt("writes", int64(len(zzWrites)))
@@ -141,6 +157,13 @@ func h17() {
 			}
 		}
 		verifAssert(same == 0, "cross-plugin-duplicate-reported")
+		// a plugin file that resolves to the core generator's file must have
+		// been reported
+		for _, ps := range allPaths {
+			for _, a := range ps {
+				verifAssert(filepath.Join(out, a) != out+"/foo/foo.go", "plugin-vs-core-duplicate-reported")
+			}
+		}
 	}
 	seen := map[string]bool{}
 	for _, w := range zzWrites {
